@@ -232,6 +232,21 @@ CLAIMED["C19"] = (
     "Trusted: TLC, rustc, the generator's closure library. Arity 6 rebinds are not generated.",
     "DESIGN §5 C19")
 
+CLAIMED["C18"] = (
+    "TLA+ spec (ParserMethod.tla: the proc macro's literal decoder on source code points - escapes, \\u{..} with "
+    "underscores, line continuations, raw strings, concat! - and the strip / find / trim match loops versus the "
+    "property's rules) checked by TLC for every (form, alternative list) over every input; each pair emitted as a "
+    "program that uses the real macro and also reports rustc's bytes of every literal",
+    "Exhaustive within bounds: 6 macro forms x 20 alternative lists (22 literal tokens: every escape kind, "
+    "\\u{1_F980}, continuations followed by space / tab+newline / NBSP / form feed, raw strings with 0-2 hashes and "
+    "embedded quotes, concat! incl. mixed raw parts, empty literal, first-listed-wins pairs like \"a\"|\"ab\") x all "
+    "input strings of <=2 (thorough 3) characters over a 12-character alphabet: branch taken, start and end offset "
+    "compared for each of the 18.8k (program, input) pairs; rustc's decoding of each literal must equal the "
+    "specification's decoder.",
+    "Trusted: TLC, rustc (reference for literal bytes), the generator. Literal and alternative tables are fixed "
+    "(lib/gen_parsermethod.py); stringify! patterns are not generated.",
+    "DESIGN §5 C18")
+
 NOT_YET = {}
 
 def main():
